@@ -369,7 +369,8 @@ def _close(got, ref, scale):
         ok = np.abs(got - ref) <= 1e-10 * np.maximum(scale, 1.0)
     both_nan = np.isnan(got) & np.isnan(ref)
     same_inf = np.isinf(got) & (got == ref)
-    illcond = ~np.isfinite(scale)
+    # a denominator that is the rounding residue of cancelling (signed) counts: nothing of the estimate is significant
+    illcond = ~np.isfinite(scale) | (scale > 1e9)
     return bool(np.all(ok | both_nan | same_inf | illcond))
 
 
